@@ -7,6 +7,9 @@
 (*          formref: [err, fields, files]]                                                    *)
 (*   run : [t, i, op, api, maxmem, maxparts, steps: <<[fed, buflen, ev: <<event>>]>>, err]    *)
 (*   form: [t, i, op, maxmem, maxparts, res: [err, fields, files]]                            *)
+(* The part-count limit is exact (a count of parts), unlike the memory limit (which depends on *)
+(* what happens to be buffered): a 413 under max_parts alone although the body has no more     *)
+(* parts than allowed is chunking-dependent behaviour (PartsLimitSpurious).                    *)
 (* event: [k |-> "P", kind, name, hasfn, fname, hdr]  |  [k |-> "D", off, len, lit, more]     *)
 (* Payload bytes are encoded as a slice (off, len) of the wire when they are one, else `lit`. *)
 (* One TLC state per line; every verdict is total (REJECT line, then judging continues).      *)
@@ -53,6 +56,7 @@ JudgeSteps(c, r, i, parts) ==
        ELSE IF r.err = "" THEN
             (IF parts = RefParts(c) THEN "ok"
              ELSE IF r.maxmem >= 0 \/ r.maxparts >= 0 THEN "GuardPurity" ELSE "DoneEqualsRef")
+       ELSE IF r.err = "too_large" /\ r.maxmem < 0 /\ r.maxparts >= Len(c.ref.parts) THEN "PartsLimitSpurious"
        ELSE IF r.err = "too_large" /\ (r.maxmem >= 0 \/ r.maxparts >= 0) THEN "ok"
        ELSE IF r.maxmem >= 0 \/ r.maxparts >= 0 THEN "OnlyTooLarge" ELSE "SpuriousError"
   ELSE LET s  == r.steps[i]
@@ -76,6 +80,7 @@ JudgeForm(c, r) ==
        (IF FieldTooBig(c, r) \/ TooManyParts(c, r) THEN "LimitNotEnforced"
         ELSE IF r.res.fields = c.formref.fields /\ r.res.files = c.formref.files THEN "ok"
         ELSE IF Limited(r) THEN "GuardPurity" ELSE "FormEqualsRef")
+  ELSE IF r.res.err = "too_large" /\ r.maxmem < 0 /\ r.maxparts >= Len(c.ref.parts) /\ c.ref.err = "" THEN "PartsLimitSpurious"
   ELSE IF r.res.err = "too_large" /\ Limited(r) THEN "ok"
   ELSE IF Limited(r) THEN "OnlyTooLarge" ELSE "SpuriousError"
 
@@ -92,6 +97,8 @@ JudgeReq(c, r) ==
      ELSE IF r.mcl >= 0 /\ r.consumed > r.mcl THEN "ConsumedBound"
      ELSE IF c.formref.err # "" THEN "ok"
      ELSE IF r.res.err \notin {"", "too_large"} THEN "OnlyTooLarge"
+     ELSE IF r.res.err = "too_large" /\ r.maxmem < 0 /\ r.mcl < 0 /\ c.ctype = "multipart" /\ c.ref.err = ""
+             /\ r.maxparts >= Len(c.ref.parts) THEN "PartsLimitSpurious"
      ELSE IF r.res.err = "too_large" THEN (IF anyLimit THEN "ok" ELSE "SpuriousTooLarge")
      ELSE IF ~usable THEN (IF r.res.fields = <<>> /\ r.res.files = <<>> THEN "ok" ELSE "EmptyWithoutLength")
      ELSE IF FieldTooBig(c, r) \/ TooManyParts(c, r) \/ urlBig \/ bodyBig THEN "LimitNotEnforced"
